@@ -33,7 +33,7 @@ Proof.
   - symmetry. apply Nat.eqb_neq. lia.
   - destruct Hcap as [Hcap|[Hq1 Hn0]]; [left; lia|right; lia].
   - intros i Hi. destruct (Nat.eq_dec i n) as [->|Hne].
-    + rewrite app_nth2 by lia. unfold n at 3. rewrite Nat.sub_diag. cbn [nth]. rewrite <- Ht. apply nth_upd_eq. lia.
+    + rewrite app_nth2 by lia. replace (n - length l) with 0 by (unfold n; lia). cbn [nth]. rewrite <- Ht. apply nth_upd_eq. lia.
     + rewrite app_nth1 by lia. rewrite nth_upd_neq; [apply Hn; lia|].
       rewrite Ht. intros Heq. apply mod_inj in Heq; lia.
 Qed.
@@ -70,7 +70,7 @@ Proof.
   step_inv H; cbn -[Nat.modulo];
     try match goal with Hf : finish_op _ _ _ _ = _ |- _ => destruct (finish_pending _ _ _ _ _ _ Hf) as [-> _] end;
     try exact HR.
-  - apply andb_false_iff in E0. rewrite E1 in E0. cbn in E0. destruct E0 as [E0|E0]; [|discriminate].
+  - cbn in E0. rewrite andb_true_r in E0.
     apply (ring_push (set_owner (Some tid) (sp s))); auto.
   - apply (ring_push (set_owner (Some tid) (sp s))); auto.
   - apply orb_false_iff in E0. destruct E0 as [E0 _].
